@@ -11,6 +11,7 @@ func init() {
 		Thorough:   all("./..."),
 		Run: func(c *Ctx) {
 			c.ruleCoderRow("R-CODER-ROW", 100)
+			c.ruleCoderSelect("R-CODER-SELECT", 60)
 			c.ruleKindContext("R-KIND-CONTEXT", []string{"proto", "internal/impl"}, 100)
 		},
 	})
